@@ -91,3 +91,15 @@ def lib_idioms(b):
 
 
 CASES["lib_idioms"] = [(bytes([5, 6, 7]),), (bytes([255, 0, 128, 9]),)]
+
+
+def union_isinstance(b):
+    # PEP 604 unions in isinstance: the disjunction over the members (once answered True for everything)
+    t = (b, b)
+    n = None
+    return [isinstance(b, bytes | bytearray), isinstance(t, bytes | bytearray), isinstance(bytearray(b), bytes | bytearray),
+            isinstance(b[0], int | None), isinstance(n, int | None), isinstance(n, bytes | bytearray), isinstance(t, tuple | list | None),
+            isinstance("s", bytes | str), isinstance(b, (int, str | tuple))]
+
+
+CASES["union_isinstance"] = [(bytes([5, 6, 7]),), (b"\0",)]
